@@ -1,3 +1,4 @@
 import NaunetModel.OdeGen
 import NaunetModel.Solve
 import NaunetModel.Network
+import NaunetModel.Window
